@@ -1436,7 +1436,8 @@ def _sympy_to_BlockSeries(
 
     """
     if not symbols:
-        symbols = tuple(list(operator.free_symbols))  # All symbols are perturbative
+        # All symbols are perturbative; sorted by name like the symbols of dictionary keys.
+        symbols = tuple(sorted(operator.free_symbols, key=lambda x: x.name))
     if any(n not in operator.free_symbols for n in symbols):
         raise ValueError("Not all perturbative parameters are in `hamiltonian`.")
 
